@@ -9,7 +9,7 @@
      text_bytes e text / bom e / with_bom b e text   the encoding schemes (StreamSpec.v)
      encs w text       the code units of a text in width w                 (UtfSpec.v) *)
 From BS Require Import Base UtfSpec UtfModel UtfLemmas StreamIStream StreamSpec StreamModel
-  StreamUnits StreamDetProofs StreamEsrProofs StreamLossless StreamEswProofs.
+  StreamUnits StreamDetProofs StreamEsrProofs StreamLossless StreamTruncated StreamEswProofs.
 Local Open Scope nat_scope.
 
 (* ------------------------------------------------------------------ detection, with BOM *)
@@ -121,18 +121,62 @@ Print Assumptions T_C13_progress.
 
 (* ------------------------------------------------------------------ truncated streams *)
 
-(* NOT PROVED: the general statement "a stream cut in the middle of a character gives, under Skip, the
-   complete prefix followed by the mark, and under ThrowError ends with DecodeError" (for all
-   schemes and cut points).  What is proved:
-   - T_C13_progress above: such a stream never hangs the reader;
-   - T_C13_truncated_partial: at end of file a window holding a partial code unit (a cut inside a
-     UTF-16/32 code unit, the case that used to spin for ever) is answered by the mark (Skip: window
-     dropped, output extended by the mark) or by DecodeError, never passed over;
-   - the examples below: one cut per scheme evaluated by the kernel.
-   One same-width path is known NOT to satisfy it: char output of a UTF-8 stream is the raw bytes, a
-   cut character passes through without mark or error (second half of
-   T_C13_truncated_example_samewidth; known finding, by design). *)
-Theorem T_C13_truncated_partial : forall K tgt pol mark data e s out,
+(* The stream is the BOM (optional) and the first L bytes of the encoding of done ++ [c], with L strictly
+   inside the bytes of the last character c.  trunc_result (StreamTruncated.v):
+     Skip       : RunDone (Success^(k+1) ++ [EndFile]) (encs tgt done ++ mark) e
+     ThrowError : RunDone (Success^k ++ [DecodeError]) (encs tgt done) e
+   i.e. the complete prefix, then the mark / the error; nothing lost, nothing invented, no hang.
+   Full strength (every target width) is false: a UTF-8 stream read into a char target is appended
+   raw, the partial character passes through without mark or error (by design; known finding). *)
+Theorem T_C13_truncated_refuted :
+  ~ (forall K tgt pol mark e b done c L sk fuel,
+       K mod 4 = 0 -> 32 <= K -> Forall scalar (done ++ [c]) ->
+       unit_size (utf_width e) * length (encs (utf_width e) done) < L <
+         unit_size (utf_width e) * length (encs (utf_width e) (done ++ [c])) ->
+       (b = true \/ starts_ascii done) -> trunc_defect e b done c = false ->
+       S (length ((if b then bom e else []) ++ firstn L (text_bytes e (done ++ [c])))) < fuel ->
+       exists k, esr_run K tgt pol mark fuel
+                   (stream_of ((if b then bom e else []) ++ firstn L (text_bytes e (done ++ [c]))) sk) =
+                 trunc_result tgt pol mark e done k).
+Proof.
+  intros H.
+  destruct (H 32 W8 Skip [0x3F]%N Utf8 true [0x61]%N 0x20AC%N 3 true 100) as [k Hk]; try reflexivity; try lia.
+  - repeat constructor.
+  - cbn; lia.
+  - cbn; lia.
+  - assert (W : esr_run 32 W8 Skip [0x3F]%N 100
+                  (stream_of ((if true then bom Utf8 else []) ++ firstn 3 (text_bytes Utf8 ([0x61]%N ++ [0x20AC]%N))) true) =
+                RunDone [ChSuccess; ChEndFile] [0x61; 0xE2; 0x82]%N Utf8) by (vm_compute; reflexivity).
+    rewrite W in Hk. unfold trunc_result in Hk. cbn [encs flat_map enc app] in Hk.
+    injection Hk as _ Hout. vm_compute in Hout. discriminate Hout.
+Qed.
+Print Assumptions T_C13_truncated_refuted.
+
+(* every pair of different source and target widths, every scheme, BOM choice, chunk size, policy,
+   mark, complete prefix and cut point inside the last character *)
+Theorem T_C13_truncated_outside : forall K tgt pol mark e b done c L sk fuel,
+  K mod 4 = 0 -> 32 <= K -> Forall scalar (done ++ [c]) ->
+  unit_size (utf_width e) * length (encs (utf_width e) done) < L <
+    unit_size (utf_width e) * length (encs (utf_width e) (done ++ [c])) ->
+  width_eqb (utf_width e) tgt = false ->
+  (b = true \/ starts_ascii done) -> trunc_defect e b done c = false ->
+  S (length ((if b then bom e else []) ++ firstn L (text_bytes e (done ++ [c])))) < fuel ->
+  exists k, esr_run K tgt pol mark fuel
+              (stream_of ((if b then bom e else []) ++ firstn L (text_bytes e (done ++ [c]))) sk) =
+            trunc_result tgt pol mark e done k.
+Proof.
+  intros K tgt pol mark e b done c L sk fuel H4 H32 Hs HL Hx Hd Hn Hf.
+  exact (esr_truncated K H4 H32 tgt pol mark e b done c L Hs HL Hx Hd Hn sk fuel Hf).
+Qed.
+Print Assumptions T_C13_truncated_outside.
+
+(* NOT PROVED: the same statement for equal source and target widths 16 -> 16 and 32 -> 32 (where it
+   holds on the current code: kernel-evaluated in T_C13_truncated_example_samewidth, and covered by the
+   correspondence at every cut point); the class excluded above is therefore larger than the true
+   defect class (UTF-8 -> char only).  Independent of widths and of well-formedness of what precedes:
+   at end of file a window holding a partial code unit (the case that used to spin for ever) is
+   answered by the mark (Skip: window dropped, output extended by the mark) or by DecodeError *)
+Theorem T_C13_truncated_partial_unit : forall K tgt pol mark data e s out,
   K mod 4 = 0 -> 32 <= K -> EInv K data s ->
   is_eof (e_is s) = true -> (e_end s - e_start s) mod unit_size (utf_width e) <> 0 ->
   exists c s' o, esr_decode_chunk tgt pol mark e s out = Ok (c, s', o) /\
@@ -142,7 +186,7 @@ Proof.
   intros K tgt pol mark data e s out H4 H32 I He Hm.
   exact (decode_chunk_partial_unit K H4 H32 tgt pol mark data e s out I He Hm).
 Qed.
-Print Assumptions T_C13_truncated_partial.
+Print Assumptions T_C13_truncated_partial_unit.
 
 (* "a€" cut inside the euro sign / its code unit, BOM present *)
 Example T_C13_truncated_example_utf8 :
